@@ -129,6 +129,19 @@ PROPS = {
         "assumptions": COMMON_ASSUMPTIONS,
         "explanation": "FIN receive-half theorems + sess/pipe correspondence + e2e known findings",
     },
+    "C09": {
+        "level": "proof",
+        "lean_modules": ["AnyTLS.Props.C09"],
+        "groups": [{"group": "sched", "quick_cases": 800, "thorough_cases": 20000,
+                    "ignore_sigs": ["frame_torn/wire", "settings_not_first/wire", "task_frames_lost_or_reordered/wire", "task_frames_reordered/wire", "data_before_syn/wire"]},
+                   {"group": "sess", "quick_cases": 600, "thorough_cases": 20000}],
+        "rule": "sched case: as for C11 - 2-4 tasks on one real session under the controlled scheduler - with a termination cause in half of the cases: EOF, read error or Alert fed to the receive loop, the transport refusing writes from the k-th write on (k = 0..3, i.e. failing at any piece of a padded multi-piece write, while other tasks hold or queue for either lock), close() as an operation of a task; injected at a random position of the schedule (fixed: at each of the first 4 / 7 scheduling decisions of 8 canonical scenarios, every pick sequence); "
+                "sess case: sequential histories on one session with close / eof / rderr / budget ops at every frame boundary and inside frames (byte-level feeds), followed by writes, opens and reads; non-trivial as in the groups; distinct by SHA-1 of the op lines",
+        "level_text": "kernel-checked theorems over the interleaving model M13, for ANY number of tasks, every interleaving at the granularity of single accesses to shared state, every combination of causes (close() calls, the receive loop calling close() at any moment, transport writes failing at any piece of any write): the lock state is always consistent with the tasks' states - holders, FIFO queues, no duplicates (LockInv, preserved by every action) - and from it: as long as any task is unfinished some task can take a step, i.e. no task ever waits for a lock whose holder waits for it or for itself (no_deadlock: the D8 self-deadlock is impossible); the closed flag is final (closed_forever); a closed session whose close() has finished has shut its transport down (closed_then_shut); the drain step closes every stream in the table and resolves its pending open (drain_releases; readers then reach end of stream by C01); an open_stream on a closed session fails at once, a write_frame that obtains the buffer lock on a closed session returns the error and writes nothing (later_open_fails, later_write_fails); a failed transport write closes the session (failed_write_closes, failure_closes). Tied to the code by the sched differential run (task status after every scheduling decision, incl. 'blocked') and the sess run",
+        "level_note": "PARTIAL on 'never blocks forever': deadlock freedom is proved for every reachable state; that every schedule terminates (a bound on the number of steps) is not yet a theorem - it is checked on the implementation under the virtual watchdog (every task must be done after the drain; a task left 'blocked' or parked is a violation). A transport whose write neither completes nor fails (stalled peer) holds the writer lock indefinitely and close() waits behind it for its 1 s shutdown timeout: outside the model (the model's transport answers every write), explored by the e2e stall scenarios of C08. Trusted: Lean kernel, harness+driver glue, placement of the scheduling points, tokio Mutex = FIFO hand-off",
+        "assumptions": COMMON_ASSUMPTIONS,
+        "explanation": "interleaving model theorems (lock invariant, deadlock freedom, close post-conditions) + sched/sess correspondence",
+    },
     "C10": {
         "level": "proof",
         "lean_modules": ["AnyTLS.Props.C10"],
